@@ -28,14 +28,20 @@ def key_of(r):
 
 
 def run(ctx):
+    # short TLC runs on a shared machine: no C2 compiler threads (quick tier), few GC threads
+    os.environ["JAVA_TOOL_OPTIONS"] = (os.environ.get("JAVA_TOOL_OPTIONS", "") + (" -XX:TieredStopAtLevel=1" if not ctx.thorough() else "")
+                                       + " -XX:ParallelGCThreads=2").strip()
     # design model of a verified, retried content-addressed read: exhaustive, plus the refuted negative twin
     maxa = ctx.pick(2, 3)
-    with cf.ThreadPoolExecutor(max_workers=3) as ex:
+    with cf.ThreadPoolExecutor(max_workers=4) as ex:
+        warm = ex.submit(ctx.go_test, "internal/repository", "^TestVerif_C02Build$", timeout=1500, out=os.path.join(ctx.work, "gobuild"))
         fd = ex.submit(ctx.tlc, "ContentAddrRead", cfg="ContentAddrRead.cfg", deadlock=False, name="design")
         ft = ex.submit(ctx.tlc, "ContentAddrRead", cfg="ContentAddrRead_twin.cfg", deadlock=False, allow_violation=True, name="twin")
         # fault scripts enumerated by TLC
         fv = ex.submit(ctx.tlc, "Fn_ContentAddrVec", cfg="Fn_ContentAddrVec.cfg", deadlock=False, defines={"MaxAttempts": str(maxa)}, name="vectors")
         d, tw, v = fd.result(), ft.result(), fv.result()
+        warm.result()
+        ctx.go_results.clear()
     if "Safe" not in tw["violated"]:
         raise verif.MachineryError("negative twin (one read attempt left unverified) was not refuted by TLC")
     vec = os.path.join(v["dir"], "vectors.ndjson")
